@@ -1023,7 +1023,14 @@ impl<'input> Lexer<'input> {
                             s if s.starts_with('"') => {
                                 let r = Lexer::new(&self.input[pos + 1..])
                                     .string_literal(0)
-                                    .map_err(|e| e.offset_by(pos + 1))?;
+                                    .map_err(|e| match e.offset_by(pos + 1) {
+                                        // `start` is the opening quote, which precedes the
+                                        // slice handed to the nested lexer
+                                        Error::StringLiteral { .. } => {
+                                            Error::StringLiteral { start: pos }
+                                        }
+                                        e => e,
+                                    })?;
                                 match literal_check(r, &mut chars) {
                                     Ok(ch) => ch,
                                     Err(()) => {
